@@ -438,6 +438,16 @@ pub(crate) const fn is_unicast_global_ipv6(ip: &Ipv6Addr) -> bool {
 #[must_use]
 #[inline]
 pub(crate) const fn is_global_ipv6(ip: &Ipv6Addr) -> bool {
+    // An IPv4-mapped address (`::ffff:a.b.c.d`) reaches the IPv4 host it embeds
+    if let Some(ipv4) = ip.to_ipv4_mapped() {
+        return is_global_ipv4(&ipv4);
+    }
+
+    // The scope nibble is only meaningful for multicast addresses
+    if !ip.is_multicast() {
+        return is_unicast_global_ipv6(ip);
+    }
+
     match ip.segments()[0] & 0x000f {
         1 // Interface-local scope (same node)
         | 2 // Link-local scope (same link)
